@@ -123,6 +123,21 @@ theorem forget_index (l : List α) (i : Nat) (s : String) : (RustSem.index l i s
   unfold RustSem.index; split <;> rfl
 end forget
 
+/-- a `Result` call inspected by the caller (`Exec.attempt`), known up to the state its `Err` carries -/
+theorem attempt_forget_ok {ε ρ ε' σ α : Type} (r : Res (ε' × σ) (σ × α)) (s : σ) (a : α) (h : r.forget = .ok (s, a)) :
+    (Exec.attempt r : Exec ε ρ _) = .val (s, .ok a) := by
+  cases r with
+  | ok v => cases v; simp only [Res.forget] at h; cases h; rfl
+  | err e => simp [Res.forget] at h
+  | panic m => simp [Res.forget] at h
+
+theorem attempt_forget_err {ε ρ ε' σ α : Type} (r : Res (ε' × σ) (σ × α)) (e : ε') (h : r.forget = .err e) :
+    ∃ s, (Exec.attempt r : Exec ε ρ _) = .val (s, .error e) := by
+  cases r with
+  | ok v => simp [Res.forget] at h
+  | err e' => obtain ⟨e1, s⟩ := e'; simp only [Res.forget] at h; cases h; exact ⟨s, rfl⟩
+  | panic m => simp [Res.forget] at h
+
 theorem Exec.ite_bind (c : Prop) [Decidable c] (a b : Exec ε ρ α) (f : α → Exec ε ρ β) :
     (if c then a else b).bind f = if c then a.bind f else b.bind f := by split <;> rfl
 theorem Exec.ite_run (c : Prop) [Decidable c] (a b : Exec ε ρ ρ) :
